@@ -47,7 +47,14 @@ fn main() {
         let n = ns[0];
         let nk = (n + extra_k).max(1) as u8;
         let props = args.props();
-        let code = mc::with_n!(n, run_replay::<Kx>(nk, ext, &path, op, props));
+        let code = match args.get("payload").unwrap_or("kx") {
+            "u8" => mc::with_n!(n, run_replay::<u8>(nk, ext, &path, op, props)),
+            "string" => mc::with_n!(n, run_replay::<String>(nk, ext, &path, op, props)),
+            "path" => mc::with_n!(n, run_replay::<std::path::PathBuf>(nk, ext, &path, op, props)),
+            "unit" => mc::with_n!(n, run_replay::<()>(nk, ext, &path, op, props)),
+            "nodrop" => mc::with_n!(n, run_replay::<mc::payload::Kn>(nk, ext, &path, op, props)),
+            _ => mc::with_n!(n, run_replay::<Kx>(nk, ext, &path, op, props)),
+        };
         std::process::exit(code);
     }
     let payload = args.get("payload").unwrap_or("kx").to_string();
@@ -56,6 +63,7 @@ fn main() {
         match payload.as_str() {
             "u8" => mc::with_n!(n, run_bfs::<u8>(&mut rep, nk, ext, threads, &caps)),
             "string" => mc::with_n!(n, run_bfs::<String>(&mut rep, nk, ext, threads, &caps)),
+            "path" => mc::with_n!(n, run_bfs::<std::path::PathBuf>(&mut rep, nk, ext, threads, &caps)),
             "unit" => mc::with_n!(n, run_bfs::<()>(&mut rep, nk, ext, threads, &caps)),
             "nodrop" => mc::with_n!(n, run_bfs::<mc::payload::Kn>(&mut rep, nk, ext, threads, &caps)),
             _ => mc::with_n!(n, run_bfs::<Kx>(&mut rep, nk, ext, threads, &caps)),
